@@ -440,6 +440,7 @@ def typing_model(role_of):
     # pairs of elements of a typed array: each member has the element's type (three representative pairs)
     m.ext["itertools.combinations"] = lambda it, x, r=2, *a, **k: [tuple(TV.of(x).el() for _ in range(r))] * 3 if isinstance(x, TV) and isinstance(r, int) else (_ for _ in ()).throw(Undecided("itertools.combinations of a non-array"))
     m.ext["np.triu_indices"] = lambda it, *a, **k: (TV("INV", 0, True, "idx"), TV("INV", 0, True, "idx"))
+    m.ext["np.flatnonzero"] = lambda it, x, *a, **k: TV("INV", 0, True, "idx")          # the positions where a mask holds: index-like, unmoved by x -> x + c
 
     def tri(it, x, k=0):
         x = TV.of(x)
@@ -747,6 +748,16 @@ class Arr:
         self.v[_i(k)] = v
 
     # methods
+    def to_numpy(self, *a, **k):
+        return Arr(self.v)
+
+    def tolist(self):
+        return list(self.v)
+
+    @property
+    def values(self):
+        return self
+
     def sum(self, *a, **k):
         r = 0
         from .absint import binop
@@ -868,6 +879,11 @@ def const_model():
     m.ext["np.mean"] = lambda it, x, *a, **k: x.mean()
     m.ext["np.percentile"] = lambda it, x, q, *a, **k: _percentile(x if isinstance(x, Arr) else Arr(x), q)
     m.ext["np.isnan"] = lambda it, x: Arr(e is None for e in x.v) if isinstance(x, Arr) else (x is None)      # None stands for NaN
+
+    def np_flatnonzero(it, x):
+        from .absint import truth
+        return Arr(i for i, e in enumerate(x.v if isinstance(x, Arr) else list(it.iterate(x))) if truth(e))
+    m.ext["np.flatnonzero"] = np_flatnonzero
 
     def np_abs(it, x):
         from .absmodel import builtin
